@@ -1,5 +1,7 @@
 import Driver.Util
 import NutsModel.C12.PE
+import NutsModel.C12.Ecma
+import NutsModel.C12.Consumer
 import NutsModel.Facts.C12
 open Lean Nuts.Drv Nuts.C12 Nuts
 
@@ -93,10 +95,14 @@ structure St where
   live : Bool := false
 
 /-- the regexp2 contract as a table; a pair the harness did not supply is reported, never defaulted silently -/
-def reOf (tbl : List (String × String × ReRes)) : Regex := fun p s =>
+def reTbl (tbl : List (String × String × ReRes)) : Regex := fun p s =>
   match tbl.find? (fun e => e.1 == p && e.2.1 == s) with
   | some e => e.2.2
   | none => .runErr
+
+/-- patterns of the anchored-class subset are decided by the model's own ECMA-262 matcher (NutsModel/C12/Ecma.lean),
+    all others by the supplied regexp2 table -/
+def reOf (tbl : List (String × String × ReRes)) : Regex := ecmaFirst (reTbl tbl)
 
 def parseRe (j : Json) : Option (String × String × ReRes) :=
   match j with
